@@ -113,8 +113,58 @@ MUTATIONS = [
      "/ na;\n" + RENORM2, "/ na;\n" + RENORM2.replace("let s = b + d + u;", "let s = d + b + u;"),
      ("exact", 0, {"gen_mul_eq"})),
     ("comul: u / s -> u in the renormalisation", "bi.rs",
-     "/ a;\n" + RENORM2 + "                Self::new(b / s, d / s, u / s, a)",
-     "/ a;\n" + RENORM2 + "                Self::new(b / s, d / s, u, a)", ("exact", 0, {"gen_comul_eq"})),
+     "wx * rhs.d() * self.u());\n" + RENORM2 + "                Self::new(b / s, d / s, u / s, a)",
+     "wx * rhs.d() * self.u());\n" + RENORM2 + "                Self::new(b / s, d / s, u, a)", ("exact", 0, {"gen_comul_eq"})),
+    # ---- repair a66cfd4: comul forms the weights wx = ax / a, wy = ay / a before multiplying
+    ("comul weights: wx <-> wy in the d sum", "bi.rs",
+     "+ (wx * (1.0 - rhs.base_rate) * self.d() * rhs.u()\n                        + wy * (1.0 - self.base_rate) * rhs.d() * self.u());",
+     "+ (wy * (1.0 - rhs.base_rate) * self.d() * rhs.u()\n                        + wx * (1.0 - self.base_rate) * rhs.d() * self.u());",
+     ("exact", 0, {"gen_comul_eq"})),
+    ("comul weights: wx <-> wy in the u sum", "bi.rs",
+     "(wy * self.d() * rhs.u() + wx * rhs.d() * self.u());", "(wx * self.d() * rhs.u() + wy * rhs.d() * self.u());",
+     ("exact", 0, {"gen_comul_eq"})),
+    ("comul weights: the two definitions exchanged (wx = ay / a, wy = ax / a)", "bi.rs",
+     "let wx = self.base_rate / a;\n                let wy = rhs.base_rate / a;",
+     "let wx = rhs.base_rate / a;\n                let wy = self.base_rate / a;", ("exact", 0, {"gen_comul_eq"})),
+    ("comul weights: division of wx dropped", "bi.rs",
+     "let wx = self.base_rate / a;", "let wx = self.base_rate;", ("exact", 0, {"gen_comul_eq"})),
+    ("comul weights: wy divided by the wrong quantity (b instead of a)", "bi.rs",
+     "let wy = rhs.base_rate / a;", "let wy = rhs.base_rate / b;", ("exact", 0, {"gen_comul_eq"})),
+    ("comul: the pre-repair text (numerators first, then / a; equal over the rationals: the tie must BREAK)", "bi.rs",
+     "+ (wx * (1.0 - rhs.base_rate) * self.d() * rhs.u()\n                        + wy * (1.0 - self.base_rate) * rhs.d() * self.u());\n"
+     "                let u = self.u() * rhs.u() + (wy * self.d() * rhs.u() + wx * rhs.d() * self.u());",
+     "+ (self.base_rate * (1.0 - rhs.base_rate) * self.d() * rhs.u()\n                        + rhs.base_rate * (1.0 - self.base_rate) * rhs.d() * self.u())\n                        / a;\n"
+     "                let u = self.u() * rhs.u()\n                    + (rhs.base_rate * self.d() * rhs.u() + self.base_rate * rhs.d() * self.u())\n                        / a;",
+     ("exact", 0, {"gen_comul_eq"})),
+    ("comul weights: the weight applied last instead of first (re-association: the tie must BREAK)", "bi.rs",
+     "(wy * self.d() * rhs.u() + wx * rhs.d() * self.u());", "(self.d() * rhs.u() * wy + wx * rhs.d() * self.u());",
+     ("exact", 0, {"gen_comul_eq"})),
+    # ---- repair cf81fd9: deduce clamps b and d at zero before the renormalisation
+    ("deduce clamp: b clamp removed", "bi.rs",
+     "                let b = if b < 0.0 { 0.0 } else { b };\n", "", ("exact", 0, {"gen_deduce_eq"})),
+    ("deduce clamp: d clamp removed", "bi.rs",
+     "                let d = if d < 0.0 { 0.0 } else { d };\n", "", ("exact", 0, {"gen_deduce_eq"})),
+    ("deduce clamp: b `<` -> `>`", "bi.rs",
+     "let b = if b < 0.0 { 0.0 } else { b };", "let b = if b > 0.0 { 0.0 } else { b };", ("exact", 0, {"gen_deduce_eq"})),
+    ("deduce clamp: d `<` -> `<=` (same values, but -0.0 / NaN handling is text: the tie must BREAK)", "bi.rs",
+     "let d = if d < 0.0 { 0.0 } else { d };", "let d = if d <= 0.0 { 0.0 } else { d };", ("exact", 0, {"gen_deduce_eq"})),
+    ("deduce clamp: the b clamp tests d (clamps the wrong variable)", "bi.rs",
+     "let b = if b < 0.0 { 0.0 } else { b };", "let b = if d < 0.0 { 0.0 } else { b };", ("exact", 0, {"gen_deduce_eq"})),
+    ("deduce clamp: the d clamp returns b", "bi.rs",
+     "let d = if d < 0.0 { 0.0 } else { d };", "let d = if d < 0.0 { 0.0 } else { b };", ("exact", 0, {"gen_deduce_eq"})),
+    ("deduce clamp: b clamped to one instead of zero", "bi.rs",
+     "let b = if b < 0.0 { 0.0 } else { b };", "let b = if b < 0.0 { 1.0 } else { b };", ("exact", 0, {"gen_deduce_eq"})),
+    ("deduce clamp: arms exchanged (negated test)", "bi.rs",
+     "let d = if d < 0.0 { 0.0 } else { d };", "let d = if d < 0.0 { d } else { 0.0 };", ("exact", 0, {"gen_deduce_eq"})),
+    ("deduce clamp: u clamped as well (not in the code)", "bi.rs",
+     "let u = ui + k;\n                let a = ay;", "let u = ui + k;\n                let u = if u < 0.0 { 0.0 } else { u };\n                let a = ay;",
+     ("exact", 0, {"gen_deduce_eq"})),
+    ("deduce clamp: clamps moved after u (binding order only: the tie must HOLD)", "bi.rs",
+     "                let b = if b < 0.0 { 0.0 } else { b };\n                let d = if d < 0.0 { 0.0 } else { d };\n                let u = ui + k;\n",
+     "                let u = ui + k;\n                let b = if b < 0.0 { 0.0 } else { b };\n                let d = if d < 0.0 { 0.0 } else { d };\n",
+     None),
+    ("deduce clamp: f64::max with a literal instead of the comparison (NaN handling differs; outside the subset => hole)", "bi.rs",
+     "let b = if b < 0.0 { 0.0 } else { b };", "let b = b.max(0.0);", ("exact", 3, {"gen_deduce_eq"})),
     ("deduce: d / s -> d * s in the renormalisation", "bi.rs",
      "let a = ay;\n" + RENORM2 + "                Self::new(b / s, d / s, u / s, a)",
      "let a = ay;\n" + RENORM2 + "                Self::new(b / s, d * s, u / s, a)", ("exact", 0, {"gen_deduce_eq"})),
@@ -470,6 +520,30 @@ MUTATIONS = [
     ("max_uncertainty: min -> max", "mul.rs", "u = u.min(temp);", "u = u.max(temp);", "gen_max_uncertainty_eq"),
     ("uncertainty_maximized: - -> +", "mul.rs", "p[i] - a[i] * u_max", "p[i] + a[i] * u_max",
      "gen_uncertainty_maximized_eq"),
+    # repair 8520ade: clamp of the rounding residue of every b_max[i] in uncertainty_maximized
+    ("uncertainty_maximized clamp: removed", "mul.rs",
+     "* u_max;\n            if b < V::zero() {\n                V::zero()\n            } else {\n                b\n            }\n",
+     "* u_max;\n            b\n", "gen_uncertainty_maximized_eq"),
+    ("uncertainty_maximized clamp: `<` -> `>`", "mul.rs",
+     "* u_max;\n            if b < V::zero() {", "* u_max;\n            if b > V::zero() {", "gen_uncertainty_maximized_eq"),
+    ("uncertainty_maximized clamp: `<` -> `<=`", "mul.rs",
+     "* u_max;\n            if b < V::zero() {", "* u_max;\n            if b <= V::zero() {", "gen_uncertainty_maximized_eq"),
+    ("uncertainty_maximized clamp: clamped to one instead of zero", "mul.rs",
+     "* u_max;\n            if b < V::zero() {\n                V::zero()", "* u_max;\n            if b < V::zero() {\n                V::one()",
+     "gen_uncertainty_maximized_eq"),
+    ("uncertainty_maximized clamp: branches swapped", "mul.rs",
+     "* u_max;\n            if b < V::zero() {\n                V::zero()\n            } else {\n                b\n",
+     "* u_max;\n            if b < V::zero() {\n                b\n            } else {\n                V::zero()\n",
+     "gen_uncertainty_maximized_eq"),
+    ("uncertainty_maximized clamp: compares u_max instead of b", "mul.rs",
+     "* u_max;\n            if b < V::zero() {", "* u_max;\n            if u_max < V::zero() {", "gen_uncertainty_maximized_eq"),
+    ("uncertainty_maximized clamp: clamps u_max instead of the masses", "mul.rs",
+     "* u_max;\n            if b < V::zero() {\n                V::zero()\n            } else {\n                b\n            }\n"
+     "        });\n"
+     "        // sum(b_max) + u_max = 1 - u_max * (sum(a) - 1): renormalise like every other operator that builds b = p - a*u\n"
+     "        Simplex::normalized(b_max, u_max)",
+     "* u_max;\n            b\n        });\n"
+     "        Simplex::normalized(b_max, if u_max < V::zero() { V::zero() } else { u_max })", "gen_uncertainty_maximized_eq"),
     ("normalize_prob_dist: accumulate squares", "mul.rs", "s += p[i];", "s += p[i] * p[i];",
      "gen_normalize_prob_dist_eq"),
     ("Simplex::normalized: drop `u /= s`", "mul.rs", "        u /= s;\n", "", "gen_Simplex_normalized_eq"),
